@@ -4,6 +4,7 @@
 (* a program is a sequence of operations on one channel of capacity Cap    *)
 (*   "s1" "s2"  send 1 / 2        "r"  x = <-c (receive expression)        *)
 (*   "rk"       v, ok = <-c       "c"  close(c)                            *)
+(*   "sw"       switch <-c { case 5: .. case 2: .. case 1: .. case nil: .. } *)
 (*   "rl"       d <- c  (relay: one item received from c is sent on to a   *)
 (*              second, roomy channel d; from a closed and drained c       *)
 (*              nothing is sent)          "dl"  len(d)                     *)
@@ -34,6 +35,10 @@ Run(cap, ops, i, buf, closed, v, acc) ==
               IF Len(buf) > 0 THEN Run(cap, ops, i + 1, Tail(buf), closed, v, Append(acc, Obs("recv", Head(buf), 1)))
               ELSE IF closed THEN Run(cap, ops, i + 1, buf, closed, v, Append(acc, Obs("recv", 0, 0)))      \* nil
               ELSE [blocks |-> TRUE, obs |-> acc]
+         [] o = "sw" ->          \* switch <-c { case ... }: the subject is ONE receive, whatever the number of cases tried
+              IF Len(buf) > 0 THEN Run(cap, ops, i + 1, Tail(buf), closed, v, Append(acc, Obs("switch", Head(buf), 1)))
+              ELSE IF closed THEN Run(cap, ops, i + 1, buf, closed, v, Append(acc, Obs("switch", 0, 0)))    \* nil
+              ELSE [blocks |-> TRUE, obs |-> acc]
          [] o = "rk" ->
               IF Len(buf) > 0 THEN Run(cap, ops, i + 1, Tail(buf), closed, Head(buf), Append(acc, Obs("recvok", Head(buf), 1)))
               ELSE IF closed THEN Run(cap, ops, i + 1, buf, closed, v, Append(acc, Obs("recvok", v, 0)))     \* ok = false, v untouched
@@ -52,10 +57,19 @@ RunD(cap, ops, i, buf, closed, v, acc, dbuf) ==
               IF r.blocks THEN [blocks |-> TRUE, obs |-> acc]
               ELSE LET ob == r.obs[1]
                        buf2 == CASE o \in {"s1", "s2"} /\ ob.a = 1 -> Append(buf, IF o = "s1" THEN 1 ELSE 2)
-                                 [] o \in {"r", "rk"} /\ ob.b = 1 -> Tail(buf)
+                                 [] o \in {"r", "rk", "sw"} /\ ob.b = 1 -> Tail(buf)
                                  [] OTHER -> buf
                        v2 == IF o = "rk" /\ ob.b = 1 THEN ob.a ELSE v IN
                    RunD(cap, ops, i + 1, buf2, closed \/ (o = "c"), v2, Append(acc, ob), dbuf)
+\* capacity law (checked for the bounded capacities; replayed at scale): a channel made with capacity n takes exactly n sends without a receiver,
+\* and then hands them out in order
+Sends(n) == [j \in 1..n |-> IF j % 2 = 1 THEN "s1" ELSE "s2"]
+CapacityLaw(cap) == /\ ~Run(cap, Sends(cap), 1, <<>>, FALSE, 77, <<>>).blocks
+                    /\ Run(cap, Sends(cap + 1), 1, <<>>, FALSE, 77, <<>>).blocks
+                    /\ LET r == Run(cap, Sends(cap) \o <<"c">> \o [j \in 1..(cap + 1) |-> "r"], 1, <<>>, FALSE, 77, <<>>) IN
+                       /\ ~r.blocks
+                       /\ \A j \in 1..cap : r.obs[cap + 1 + j] = Obs("recv", IF j % 2 = 1 THEN 1 ELSE 2, 1)
+                       /\ r.obs[2 * cap + 2] = Obs("recv", 0, 0)
 SeqRun(cap, ops) == IF \E j \in 1..Len(ops) : ops[j] \in {"rl", "dl"} THEN RunD(cap, ops, 1, <<>>, FALSE, 77, <<>>, <<>>)
                     ELSE Run(cap, ops, 1, <<>>, FALSE, 77, <<>>)
 =============================================================================
